@@ -18,6 +18,7 @@ from spacepackets.cfdp.pdu.file_data import FileDataPdu
 from spacepackets.cfdp.pdu.nak import NakPdu
 from spacepackets.cfdp.pdu.prompt import PromptPdu
 from spacepackets.cfdp.pdu.header import AbstractPduBase
+from spacepackets.exceptions import BytesTooShortError
 from spacepackets.version import get_version
 
 GenericPduPacket = Union[AbstractFileDirectiveBase, AbstractPduBase]
@@ -164,6 +165,12 @@ class PduFactory:
 
     @staticmethod
     def pdu_type(data: bytes) -> PduType:
+        """Retrieve the PDU type from a raw bytestream.
+
+        :raises BytesTooShortError: Empty bytestream.
+        """
+        if len(data) < 1:
+            raise BytesTooShortError(1, len(data))
         return PduType((data[0] >> 4) & 0x01)
 
     @staticmethod
@@ -175,6 +182,7 @@ class PduFactory:
         """Retrieve the PDU directive type from a raw bytestream.
 
         :raises ValueError: Invalid directive type.
+        :raises BytesTooShortError: Bytestream too short to contain the directive code.
         :returns: None, if the PDU in the given bytestream is not a file directive, otherwise the
             directive.
         """
@@ -182,4 +190,6 @@ class PduFactory:
             return None
         else:
             header_len = AbstractPduBase.header_len_from_raw(data)
+            if len(data) <= header_len:
+                raise BytesTooShortError(header_len + 1, len(data))
             return DirectiveType(data[header_len])
